@@ -1,7 +1,7 @@
 //! C01: after every operation of a history, every reverse lookup of every item.
 use crate::out::Out;
 use crate::rng::Rng;
-use crate::storegen::{apply, gen_history, new_store, observe, GenCfg};
+use crate::storegen::{apply, gen_history, new_store, obs_stored, observe, GenCfg};
 use crate::sx::{l, Sx};
 
 pub struct Ctx {}
@@ -10,10 +10,14 @@ impl Ctx {
     pub fn new() -> Self {
         Ctx {}
     }
-    /// request = list of operations
+    /// request = list of operations. The model is given, besides the operations, what the
+    /// implementation stores for every complex target after every operation (the subselector
+    /// vector with its internal ranged selectors) and what iterating over it yields in stored
+    /// order: the model compresses that list itself and expands the stored form itself.
     pub fn exec(&self, req: &Sx) -> (Sx, Vec<Sx>, bool) {
         let mut store = new_store();
         let mut outs = Vec::new();
+        let mut forms = Vec::new();
         let mut nontrivial = false;
         for op in req.list() {
             let r = apply(&mut store, op);
@@ -22,8 +26,34 @@ impl Ctx {
             }
             outs.push(r);
             outs.extend(observe(&store));
+            let mut step = Vec::new();
+            for h in 0..store.annotations_len() {
+                if let Some((stored, expanded)) = obs_stored(&store, h) {
+                    step.push(l(vec![crate::sx::a(h as i64), stored.clone(), expanded.clone()]));
+                    outs.push(stored);
+                    outs.push(expanded);
+                }
+            }
+            forms.push(l(step));
         }
-        (req.clone(), outs, nontrivial)
+        (l(vec![req.clone(), l(forms)]), outs, nontrivial)
+    }
+}
+
+/// distribution of the stored forms of complex targets (counted after every operation)
+fn count_forms(out: &mut Out, i2: &Sx) {
+    for step in i2.nth(1).list() {
+        for e in step.list() {
+            out.count("stored_complex_target");
+            for c in e.nth(1).list() {
+                match (c.nth(0).int(), c.nth(3).int()) {
+                    (7, _) => out.count("stored_ranged_text"),
+                    (8, 0) => out.count("stored_ranged_annotation"),
+                    (8, _) => out.count("stored_ranged_annotation_with_text"),
+                    _ => {}
+                }
+            }
+        }
     }
 }
 
@@ -58,9 +88,54 @@ fn alignment_family(out: &mut Out, ctx: &Ctx) {
                     ops.push(l(vec![a(7), r(0)]));
                     let req = l(ops);
                     let (i2, o, nt) = ctx.exec(&req);
+                    count_forms(out, &i2);
                     out.count("alignment_family");
                     out.case(&i2, &o, nt, &req);
                 }
+            }
+        }
+    }
+}
+
+/// deterministic family: three annotations on adjacent text (consecutive handles) and a complex
+/// selector over them, each member without offset, covering the whole target in one of three
+/// alignments, or only a part of it: the internal RangedAnnotationSelector with and without text
+/// triggers, extends and just misses; every complex kind, two member orders; then an annotation on
+/// the complex one, removal of a member's target, of the resource
+fn withtext_family(out: &mut Out, ctx: &Ctx) {
+    use crate::sx::a;
+    let r = |t: i64| l(vec![a(0), a(t)]);
+    let h = |x: i64| l(vec![a(1), a(x)]);
+    let text = |b: i64, e: i64| l(vec![a(0), r(0), l(vec![a(0), a(b)]), l(vec![a(0), a(e)])]);
+    let member = |x: i64, style: i64| match style {
+        0 => l(vec![a(1), h(x)]),
+        1 => l(vec![a(2), h(x), l(vec![a(0), a(0)]), l(vec![a(1), a(0)])]),
+        2 => l(vec![a(2), h(x), l(vec![a(0), a(0)]), l(vec![a(0), a(2)])]),
+        3 => l(vec![a(2), h(x), l(vec![a(1), a(-2)]), l(vec![a(1), a(0)])]),
+        _ => l(vec![a(2), h(x), l(vec![a(0), a(1)]), l(vec![a(1), a(0)])]),
+    };
+    for styles in 0..125i64 {
+        for kind in 1..=3i64 {
+            for order in 0..2 {
+                let mut ops = vec![l(vec![a(0), a(0), a(8)])];
+                for i in 0..3 {
+                    ops.push(l(vec![a(3), a(-1), text(2 * i, 2 * i + 2), l(vec![])]));
+                }
+                let mut m: Vec<Sx> = (0..3).map(|i| member(i, (styles / 5i64.pow(i as u32)) % 5)).collect();
+                if order == 1 {
+                    m.reverse();
+                }
+                let mut sel = vec![a(7), a(kind)];
+                sel.extend(m);
+                ops.push(l(vec![a(3), a(5), l(sel), l(vec![])]));
+                ops.push(l(vec![a(3), a(-1), l(vec![a(1), h(3)]), l(vec![])]));
+                ops.push(l(vec![a(4), h((styles % 3) as i64)]));
+                ops.push(l(vec![a(7), r(0)]));
+                let req = l(ops);
+                let (i2, o, nt) = ctx.exec(&req);
+                count_forms(out, &i2);
+                out.count("withtext_family");
+                out.case(&i2, &o, nt, &req);
             }
         }
     }
@@ -70,6 +145,7 @@ pub fn generate(out: &mut Out, tier: &str, seed: u64) {
     let thorough = tier == "thorough";
     let ctx = Ctx::new();
     alignment_family(out, &ctx);
+    withtext_family(out, &ctx);
     let mut rng = Rng::new(seed);
     let n = if thorough { 60000 } else { 3000 };
     for i in 0..n {
@@ -111,9 +187,10 @@ pub fn generate(out: &mut Out, tier: &str, seed: u64) {
         let req = l(ops);
         let (i2, o, nt) = ctx.exec(&req);
         out.count_n("history_len", req.list().len() as u64);
+        count_forms(out, &i2);
         out.case(&i2, &o, nt, &req);
     }
 }
 
-pub const RULE: &str = "a deterministic family of 162 histories in which the text-selection handles of two resources line up with the internal range compression of complex selectors (every complex kind, three member orders, then removal of both resources); seeded random histories of 1..14 (every 4th: 1..40) operations over <=6 resources of 0..8 codepoints, <=4 datasets, all nine selector kinds (text, annotation with and without relative offset, resource, dataset, key, data, Multi/Composite/Directional with 1..4 members incl. consecutive ranges that trigger and just miss range compression), references by id and by handle, data with and without ids, the same data twice, duplicate ids, one in 12 references invalid, removals of annotations/data (strict and not)/keys/resources/datasets (two thirds of the histories); after EVERY operation the outcome and, for every annotation, resource (with every known text selection), dataset (with every key and data item) slot, all reverse lookups through the public API, plus id resolution of 10 tokens per kind. One evaluation = one item record or operation outcome; non-trivial = history with a successful annotate/removal; distinct = distinct histories.";
+pub const RULE: &str = "a deterministic family of 750 histories with a complex selector over three annotations on adjacent text, every member without offset / covering the whole target in three alignments / covering a part (the internal RangedAnnotationSelector with and without text triggers, extends, just misses; every complex kind, two orders; then an annotation on it and removals); for every complex target after every operation the stored subselector vector and its expansion, compared with the model's own compression and expansion; a deterministic family of 162 histories in which the text-selection handles of two resources line up with the internal range compression of complex selectors (every complex kind, three member orders, then removal of both resources); seeded random histories of 1..14 (every 4th: 1..40) operations over <=6 resources of 0..8 codepoints, <=4 datasets, all nine selector kinds (text, annotation with and without relative offset, resource, dataset, key, data, Multi/Composite/Directional with 1..4 members incl. consecutive ranges that trigger and just miss range compression), references by id and by handle, data with and without ids, the same data twice, duplicate ids, one in 12 references invalid, removals of annotations/data (strict and not)/keys/resources/datasets (two thirds of the histories); after EVERY operation the outcome and, for every annotation, resource (with every known text selection), dataset (with every key and data item) slot, all reverse lookups through the public API, plus id resolution of 10 tokens per kind. One evaluation = one item record or operation outcome; non-trivial = history with a successful annotate/removal; distinct = distinct histories.";
 pub const EXHAUSTIVE: bool = false;
